@@ -19,18 +19,23 @@ TECHNIQUE = (
 )
 LEVEL_TEXT = (
     "Exploration of schedules: 2..5 callers + tester-present worker + occasional reconnect, per-caller reply scripts {immediate, "
-    "k x pending, no reply, late reply after the timeout, connection error}, seeded arrival offsets and yield injection at the "
+    "k x pending, no reply, late reply after the timeout, connection error, b x busyRepeatRequest then the reply to the retransmission, "
+    "busyRepeatRequest on every attempt (retries run out), no reply to the first a transmissions then a reply}, retries allowed by the "
+    "client setting or by the per-request configuration, other callers placed inside the back-off pause between two transmissions of "
+    "one request, seeded arrival offsets and yield injection at the "
     "transport's await points, and cancellation of one caller at every transport event index of the uncancelled run (sampled in "
     "quick, enumerated in thorough). Each history is checked offline. Held = held on the recorded histories; the number of "
     "distinct interleavings is reported."
 )
 LEVEL_NOTE = (
     "Trusted: wire simulation and checker in vf/checks/c05.py, virtual clock. Requests carry unique data identifiers so a positive "
-    "reply identifies its request; negative finals are not used as results because they carry no identifier."
+    "reply identifies its request; negative finals (incl. a busyRepeatRequest final once the retries have run out) are not used as "
+    "results because they carry no identifier. An exchange window spans all transmissions of one request: it opens at the task's "
+    "first transport event and closes when the client hands the final reply or error back (database logging / return of the call)."
 )
 RULE = (
-    "cases = (number of callers, reply script per caller, arrival offsets, yield seed, tester-present interval, reconnect time, "
-    "cancellation point); non-trivial = at least two exchanges overlapped in time (a caller arrived while another held the client); "
+    "cases = (number of callers, reply script per caller, per-request retry setting, arrival offsets, yield seed, tester-present "
+    "interval, reconnect time, cancellation point); non-trivial = at least two exchanges overlapped in time (a caller arrived while another held the client); "
     "distinct = distinct case tuples; distinct_traces = distinct (event kind, task) sequences"
 )
 ASSUMPTIONS = [
@@ -40,7 +45,9 @@ ASSUMPTIONS = [
 EXHAUSTIVE = {"quick": False, "thorough": False}
 EXHAUSTIVE_NOTE = "thorough enumerates every cancellation point (transport event index) of each base history"
 
-KINDS = ["immediate", "pending", "silent", "late", "connerr"]
+KINDS = ["immediate", "pending", "silent", "late", "connerr", "busy", "busy-always", "flaky"]
+BUSY = bytes([0x7F, 0x22, 0x21])
+RETRY_KINDS = ("busy", "busy-always", "flaky")
 
 
 def shards(tier: str, seed: int) -> list[dict[str, Any]]:
@@ -53,7 +60,12 @@ def required_reach(tier: str) -> dict[str, int]:
     return {"contention.during-pending": 5, "contention.during-retry": 3, "tp.inside-window-attempt": 5, "cancel.while-holding": 5,
             "cancel.while-waiting": 5, "late-reply-surfaced-as-error": 3, "histories": 500, "overlapping-histories": 200,
             "reconnect.contended": 3, "results.owned": 1000, "transport-mode.calls": 200, "cancel.during-db-insert": 20, "cancel.reconnector": 20,
-            "db-logging.histories": 200, "raw-form.calls": 500, "plain-client.histories": 300}
+            "db-logging.histories": 200, "raw-form.calls": 500, "plain-client.histories": 300,
+            # one request transmitted more than once with a pause in between (busyRepeatRequest / no reply), others wanting the client
+            "busy.retried-then-answered": 50, "busy.retries-exhausted": 30, "busy-backoff.caller-arrives": 30, "busy-backoff.caller-queued": 30,
+            "busy-backoff.tp-worker-waiting": 5, "busy-backoff.reconnect-waiting": 3, "busy-backoff.second-pause-contended": 5,
+            "timeout-backoff.caller-arrives": 20, "timeout-backoff.caller-queued": 20, "timeout-retry.answered": 30,
+            "retry.per-request-config": 50, "retry.client-setting": 50}
 
 
 class Wire:
@@ -101,6 +113,7 @@ class Wire:
         self.nevents = 0
         self.cancel_at: int | None = None
         self.cancel_target: asyncio.Task[Any] | None = None
+        self.sent: dict[bytes, int] = {}
         self.transport = WireTransport()
 
     def who(self) -> str:
@@ -120,6 +133,10 @@ class Wire:
         loop = asyncio.get_running_loop()
         now = loop.time()
         plan = self.plans.get(data)
+        if isinstance(plan, dict):
+            # one reply plan per transmission of this request, then "rest" for every further one
+            self.sent[data] = self.sent.get(data, 0) + 1
+            plan = plan["attempts"].pop(0) if plan["attempts"] else plan["rest"]
         if plan is None:
             if data[:1] == b"\x3e":
                 plan = [(0.0, b"\x7e\x00")]
@@ -167,9 +184,13 @@ def build_case(rng: random.Random) -> dict[str, Any]:
     n = rng.randint(2, 5)
     callers = []
     for i in range(n):
-        kind = rng.choices(KINDS, weights=[4, 4, 2, 3, 2])[0]
+        kind = rng.choices(KINDS, weights=[4, 4, 2, 3, 2, 3, 1, 2])[0]
         callers.append({"did": 0x1000 + i * 0x111 + rng.randrange(0x100), "kind": kind, "k": rng.randint(1, 4), "start": rng.choice([0.0, 0.0, 0.01, 0.2, 0.9, 1.1, rng.random() * 3]),
-                        "calls": rng.choice([1, 1, 2])})
+                        "calls": rng.choice([1, 1, 2]),
+                        # busy: the first b transmissions are answered with busyRepeatRequest; flaky: the first a transmissions get no reply
+                        "b": rng.randint(1, 3), "a": rng.randint(1, 2),
+                        # retries allowed for this caller's requests by the per-request configuration (None: the client's setting applies)
+                        "retry": rng.choice([None, None, 0, 1, 2, 3]) if kind not in RETRY_KINDS else rng.choice([None, 1, 2, 3])})
     case = {"callers": callers, "timeout": rng.choice([0.5, 1.0]), "max_retry": rng.choice([0, 0, 1, 2]), "tp": rng.choice([None, 0.3, 1.0, 2.0]),
             "reconnect_at": rng.choice([None, None, 0.05, 0.6, 1.5]), "yield_seed": rng.randrange(1 << 30), "mode": "client",
             # reconnect(timeout=t): t bounds the reconnect itself; a reconnect queued behind a long exchange must not disturb it
@@ -181,6 +202,18 @@ def build_case(rng: random.Random) -> dict[str, Any]:
             # a database handler whose insert is a suspension point (as the real queue put / a full queue is): logging happens after the
             # exchange, outside the client mutex
             "db": rng.random() < 0.4}
+    # usage class: another user of the client arrives (or is already queued) while a request that will be transmitted again is in the
+    # pause between two of its transmissions
+    for x in callers:
+        allowed = x["retry"] if x["retry"] is not None else case["max_retry"]
+        if x["kind"] not in RETRY_KINDS or allowed == 0 or len(callers) < 2 or rng.random() < 0.25:
+            continue
+        lead = case["timeout"] if x["kind"] == "flaky" else 0.01
+        npauses = min(allowed, {"busy": x["b"], "flaky": x["a"]}.get(x["kind"], allowed))
+        j = rng.randrange(npauses)
+        before = sum(lead + 0.2 * 2**i for i in range(j))
+        y = rng.choice([c for c in callers if c is not x])
+        y["start"] = rng.choice([x["start"], x["start"] + before + lead + rng.random() * 0.2 * 2**j])
     if rng.random() < 0.25:
         # the transport's own request() (write+read under the transport mutex), used by scanners that bypass the UDS client
         case.update({"mode": "transport", "tp": None, "max_retry": 0})
@@ -208,10 +241,17 @@ def plans_for(case: dict[str, Any]) -> dict[bytes, list[tuple[Any, ...]]]:
                 plans[req] = [(to + 0.05 * c["k"], positive(req))]
             elif c["kind"] == "connerr":
                 plans[req] = [(0.02, "CONNERR")]
+            elif c["kind"] == "busy":
+                plans[req] = {"attempts": [[(0.01, BUSY)] for _ in range(c.get("b", 1))], "rest": [(0.01, positive(req))]}  # type: ignore[assignment]
+            elif c["kind"] == "busy-always":
+                plans[req] = {"attempts": [], "rest": [(0.01, BUSY)]}  # type: ignore[assignment]
+            elif c["kind"] == "flaky":
+                plans[req] = {"attempts": [[] for _ in range(c.get("a", 1))], "rest": [(0.01, positive(req))]}  # type: ignore[assignment]
     return plans
 
 
 async def run_history(case: dict[str, Any], cancel_at: int | None, cancel_idx: int) -> dict[str, Any]:
+    from gallia.services.uds.core.client import UDSRequestConfig
     from gallia.services.uds.ecu import ECU
 
     hist: list[tuple[Any, ...]] = []
@@ -247,6 +287,7 @@ async def run_history(case: dict[str, Any], cancel_at: int | None, cancel_idx: i
     async def caller(i: int, c: dict[str, Any]) -> None:
         name = f"caller{i}"
         await asyncio.sleep(c["start"])
+        cfg = UDSRequestConfig(max_retry=c["retry"]) if c.get("retry") is not None else None
         for call in range(c["calls"]):
             did = (c["did"] + call * 7) & 0xFFFF
             hist.append(("call", name, did, loop.time()))
@@ -255,10 +296,10 @@ async def run_history(case: dict[str, Any], cancel_at: int | None, cancel_idx: i
                     r = _R(await wire.transport.request(bytes([0x22]) + did.to_bytes(2, "big"), timeout=c.get("timeout", case["timeout"])))
                     ctx_reach.append("transport-mode.calls")
                 elif case.get("raw"):
-                    r = await ecu.send_raw(bytes([0x22]) + did.to_bytes(2, "big"))
+                    r = await ecu.send_raw(bytes([0x22]) + did.to_bytes(2, "big"), config=cfg)
                     ctx_reach.append("raw-form.calls")
                 else:
-                    r = await ecu.read_data_by_identifier(did)
+                    r = await ecu.read_data_by_identifier(did, config=cfg)
                 hist.append(("return", name, ("ok", r.pdu), loop.time()))
                 results.setdefault(name, []).append(("ok", did, r.pdu))
             except asyncio.CancelledError:
@@ -393,6 +434,8 @@ def check_history(ctx: Any, case: dict[str, Any], out: dict[str, Any], cancel: t
         for status, did, val in res:
             if case.get("mode") == "transport":
                 continue  # raw bytes: a late reply of an earlier timed-out exchange may legitimately be read here; only exclusion is decided
+            if status == "ok" and val == BUSY:
+                continue  # a negative final carries no identifier: not used as a result (reach_backoff counts the owned ones)
             if status == "ok":
                 if len(val) < 3 or val[0] != 0x62 or int.from_bytes(val[1:3], "big") != did or val != positive(bytes([0x22]) + did.to_bytes(2, "big")):
                     ctx.violation("ownership/foreign-reply-returned", "a caller received a reply that belongs to another request", {**w, "caller": name, "did": did, "got": val})
@@ -400,6 +443,7 @@ def check_history(ctx: Any, case: dict[str, Any], out: dict[str, Any], cancel: t
                 ctx.reach("results.owned")
             elif val == "RequestResponseMismatch":
                 ctx.reach("late-reply-surfaced-as-error")
+    reach_backoff(ctx, case, hist)
     # ---- progress
     if out["mutex_locked"]:
         ctx.violation("progress/client-left-locked", "after all callers ended the client mutex is still held", w)
@@ -433,6 +477,63 @@ def check_history(ctx: Any, case: dict[str, Any], out: dict[str, Any], cancel: t
             ctx.reach("cancel.while-holding" if held else "cancel.while-waiting")
             if tgt == "reconnector":
                 ctx.reach("cancel.reconnector")
+
+
+def reach_backoff(ctx: Any, case: dict[str, Any], hist: list[tuple[Any, ...]]) -> None:
+    """reach only (no verdict): pauses between two transmissions of one request (after busyRepeatRequest / after no reply) and who
+    wanted the client meanwhile. Runs on histories the exclusion oracle has accepted."""
+    spans: dict[str, list[list[int]]] = {}
+    for i, (kind, task, payload, t) in enumerate(hist):
+        if kind == "call":
+            spans.setdefault(task, []).append([i, len(hist)])
+        elif kind == "return" and spans.get(task):
+            spans[task][-1][1] = i
+    owner: str | None = None
+    last: tuple[int, str, Any] | None = None  # the owner's latest transport event in this window
+    pauses: list[str] = []
+    closed: dict[str, tuple[list[str], Any]] = {}  # window closed by the database insert, the call returns later
+    for i, (kind, task, payload, t) in enumerate(hist):
+        if kind in ("write", "read", "close", "connect"):
+            if owner is None and kind != "read":
+                owner, last, pauses = task, None, []
+            if task != owner:
+                continue
+            if kind == "write" and last is not None and last[1] == "read" and (last[2] == BUSY or last[2] == "TimeoutError"):
+                pk = "busy-backoff" if last[2] == BUSY else "timeout-backoff"
+                pauses.append(pk)
+                contended = False
+                for other, sp in spans.items():
+                    if other == owner:
+                        continue
+                    for c0, c1 in sp:
+                        if c0 < i < c1:
+                            contended = True
+                            if other == "tp-worker":
+                                ctx.reach(f"{pk}.tp-worker-waiting")
+                            elif other == "reconnector":
+                                ctx.reach(f"{pk}.reconnect-waiting")
+                            else:
+                                ctx.reach(f"{pk}.caller-arrives" if c0 > last[0] else f"{pk}.caller-queued")
+                if contended and len(pauses) >= 2:
+                    ctx.reach(f"{pk}.second-pause-contended")
+                if owner.startswith("caller"):
+                    c = case["callers"][int(owner[6:])]
+                    ctx.reach("retry.per-request-config" if c.get("retry") is not None else "retry.client-setting")
+            last = (i, kind, payload)
+        elif kind == "db-insert" and task == owner:
+            closed[task] = (pauses, last)
+            owner = None
+        elif kind == "return":
+            w_pauses, w_last = closed.pop(task, (pauses, last) if task == owner else ([], None))
+            if task == owner:
+                owner = None
+            if isinstance(payload, tuple) and payload[0] == "ok" and payload[1] is not None:
+                if payload[1] == BUSY and w_last is not None and w_last[2] == BUSY:
+                    ctx.reach("busy.retries-exhausted")
+                elif payload[1] != BUSY and "busy-backoff" in w_pauses:
+                    ctx.reach("busy.retried-then-answered")
+                if payload[1] != BUSY and "timeout-backoff" in w_pauses:
+                    ctx.reach("timeout-retry.answered")
 
 
 def one(ctx: Any, case: dict[str, Any], cancel: tuple[int, int] | None) -> dict[str, Any] | None:
